@@ -1,6 +1,6 @@
 #!/bin/bash
 # run every registered quick check once (optionally with VERIF_SEED) and print the summary lines
 cd /verif
-for c in $(ls checks | grep -E '^c[0-9]+\.py$' | sed 's/\.py//' | tr a-z A-Z); do
+for c in $(python3 -c "import json;print(\" \".join(c[\"property_id\"] for c in json.load(open(\"MANIFEST.json\"))[\"checks\"]))"); do
   /venv/bin/python -B run.py $c --tier ${1:-quick} 2>&1 | grep -E "^(VIOLATION|C[0-9]+ tier|HARNESS|Traceback)" | cut -c1-260
 done
